@@ -103,13 +103,15 @@ type c02QWalk struct {
 	top        []*Loop
 	loopOf     map[*ssa.BasicBlock]*Loop
 	recipients map[ssa.Value]bool
-	nAtom      string
-	leaves     int
-	okLeaves   int
-	tooMany    bool
-	badTrail   []string
-	badWhy     string
-	badPos     token.Pos
+	// recipIdx: the positions i of recipients recv.Species[i] for which a negative value stands for nobody
+	recipIdx map[ssa.Value]bool
+	nAtom    string
+	leaves   int
+	okLeaves int
+	tooMany  bool
+	badTrail []string
+	badWhy   string
+	badPos   token.Pos
 }
 
 const c02QuotaTerm = "recv.Species[*].ExpectedOffspring"
@@ -613,6 +615,9 @@ func (w *c02QWalk) walk(b, pred *ssa.BasicBlock, st *c02QState) {
 					if op == token.EQL && c02IsNilConst(ry) && (w.recipients[cx] || w.recipients[rx]) {
 						continue // no species to give offspring to
 					}
+					if (w.recipIdx[cx] || w.recipIdx[rx]) && c02SaysNoPosition(ry, op) {
+						continue // the same, the recipient being kept as a position in the species list
+					}
 					if c02IsInt(rx.Type()) && c02IsInt(ry.Type()) {
 						a, bb := w.lin(st, rx, 0), w.lin(st, ry, 0)
 						switch op {
@@ -657,7 +662,7 @@ func (r *Run) apportionTotal(fn *ssa.Function, tm *Termer, quota *ssa.Store) {
 	p := r.P
 	eo := p.Field(PkgG, "Species", "ExpectedOffspring")
 	w := &c02QWalk{r: r, p: p, fn: fn, tm: tm, eo: eo, listFld: p.Field(PkgG, "Population", "Species"), quota: quota,
-		loopOf: map[*ssa.BasicBlock]*Loop{}, recipients: map[ssa.Value]bool{}, nAtom: "len(recv.Organisms)"}
+		loopOf: map[*ssa.BasicBlock]*Loop{}, recipients: map[ssa.Value]bool{}, recipIdx: map[ssa.Value]bool{}, nAtom: "len(recv.Organisms)"}
 	if sts := FieldStores(fn, p.Field(PkgG, "Population", "Organisms")); len(sts) > 0 {
 		r.Undecided("apportion.total", p.Pos(sts[0].Pos()), "the organism list is replaced while the quotas are computed; the population size the quotas have to total is not a single quantity")
 		return
@@ -680,6 +685,9 @@ func (r *Run) apportionTotal(fn *ssa.Function, tm *Termer, quota *ssa.Store) {
 	for _, s := range FieldStores(fn, eo) {
 		if fa, ok := s.Addr.(*ssa.FieldAddr); ok {
 			w.recipients[fa.X] = true
+			if idx := c02RecipientIndex(tm, fa.X); idx != nil {
+				w.recipIdx[idx] = true
+			}
 		}
 	}
 	if len(fn.Blocks) == 0 {
@@ -753,6 +761,10 @@ func c02RecipientExists(fn *ssa.Function, tm *Termer, loops []*Loop, R ssa.Value
 	}
 	if _, isPhi := R.(*ssa.Phi); !isPhi {
 		if isElem(R) {
+			if idx := c02RecipientIndex(tm, R); idx != nil {
+				// chosen by position, a negative position standing for nobody (robust_c09c.go)
+				return c02RecipientIndexExists(fn, tm, loops, idx)
+			}
 			return true, "it is an element of the species list"
 		}
 		return false, "its origin " + tm.Of(R).String() + " is not understood"
